@@ -549,7 +549,7 @@ func (o *askObs) judge() {
 			r.Count("ask_valid_records_dropped", 1)
 		}
 	}
-	if len(o.result) >= 2 && len(o.ac.items) >= 5 && len(o.ac.items) <= 12 && o.world%2 == 1 && takeSample("ask", 4) {
+	if len(o.result) >= 2 && len(o.ac.items) >= 5 && len(o.ac.items) <= 12 && o.world%2 == 1 && takeSample("ask", 3) {
 		kinds := make([]string, len(o.ac.items))
 		for i, it := range o.ac.items {
 			kinds[i] = it.kind
